@@ -200,7 +200,7 @@ func dumpShowsRepoBlock(dump string) (bool, string) {
 		}
 		head := strings.SplitN(strings.TrimSpace(b), "\n", 2)[0]
 		if strings.Contains(head, "[chan send") || strings.Contains(head, "[chan receive") ||
-			strings.Contains(head, "[sync.Mutex.Lock") || strings.Contains(head, "[semacquire") ||
+			strings.Contains(head, "[sync.Mutex.Lock") || strings.Contains(head, "[sync.RWMutex") || strings.Contains(head, "[semacquire") ||
 			strings.Contains(head, "[select") || strings.Contains(head, "[sync.WaitGroup.Wait") {
 			n++
 			where = append(where, head)
